@@ -20,4 +20,3 @@ MANIFEST = {
     "note": "Trusted: Lean kernel; monitor vocabulary; harness; ground truth taken from producer acknowledgements. Theorems quantify over all histories; the correspondence samples schedules and fault sequences.",
     "technique": "Lean 4 proof over a history monitor with history correspondence against kgo x kfake in synctest bubbles",
 }
-PENDING = True
